@@ -157,6 +157,24 @@ def _norm_twin(fn: ast.AST) -> str:
     f.decorator_list = [d for d in f.decorator_list]
     body = [s for s in f.body if not (isinstance(s, ast.Expr) and isinstance(s.value, ast.Constant) and isinstance(s.value.value, str))]
     f.body = body or [ast.Pass()]
+    # shape normal form: trailing `if c: REST` == guard clause `if not c: return; REST`; a > b == b < a
+    from ..canon import _negate
+
+    changed = True
+    while changed:
+        changed = False
+        last = f.body[-1] if f.body else None
+        if isinstance(last, ast.If) and not last.orelse and not (len(last.body) == 1 and isinstance(last.body[0], ast.Return)):
+            guard = ast.If(test=_negate(last.test), body=[ast.Return(value=None)], orelse=[])
+            f.body = f.body[:-1] + [guard] + last.body
+            changed = True
+    if f.body and isinstance(f.body[-1], ast.Return) and f.body[-1].value is None and len(f.body) > 1:
+        f.body = f.body[:-1]
+    for n in ast.walk(f):
+        if isinstance(n, ast.Compare) and len(n.ops) == 1 and isinstance(n.ops[0], (ast.Gt, ast.GtE)):
+            n.left, n.comparators = n.comparators[0], [n.left]
+            n.ops = [ast.Lt() if isinstance(n.ops[0], ast.Gt) else ast.LtE()]
+    ast.fix_missing_locations(f)
     for n in ast.walk(f):
         if isinstance(n, ast.Name) and n.id in TWIN_RENAMES:
             n.id = TWIN_RENAMES[n.id]
@@ -266,6 +284,7 @@ def match_pair(ctx: Ctx, rule: str, sub: str, qual: str, steps: List[Step], mods
         all_calls = calls(fn)
         claimed: Set[int] = set()
         last_pos = (-1, -1)
+        prev_hits: List[ast.AST] = []
         for name, pa, pt, reason in steps:
             pat = pa if idx == 0 else pt
             if pat is None:
@@ -289,7 +308,11 @@ def match_pair(ctx: Ctx, rule: str, sub: str, qual: str, steps: List[Step], mods
                 continue
             claimed.add(id(hit))
             pos = (hit.lineno, hit.col_offset)
-            in_order = pos >= last_pos or pat.get("unordered")
+            # order matters only between effects that can happen in the same execution: arms of
+            # one if/elif chain are mutually exclusive and may be written in any order
+            later = [h_ for h_ in prev_hits if (h_.lineno, h_.col_offset) > pos and not _exclusive(h_, hit)]
+            in_order = not later or pat.get("unordered")
+            prev_hits.append(hit)
             # nested calls (wait_for(read(..))) share a statement: order by statement, then outer-before-inner
             ctx.check(rule, w, f"step `{name}`", True, "", hit)
             if not in_order and not _same_stmt(hit, last_node if "last_node" in dir() else None):
@@ -302,6 +325,27 @@ def match_pair(ctx: Ctx, rule: str, sub: str, qual: str, steps: List[Step], mods
                 if any(id(a) in claimed for a in ancestors(c) if isinstance(a, ast.Call)):
                     continue
                 ctx.check(rule, w, f"unclaimed effect {callee_shape(c.func)}", False, f"{rt} {q}: effect `{norm(c)[:70]}` has no counterpart in the common skeleton (added on this worker only?)", c)
+
+
+def _exclusive(a: ast.AST, b: ast.AST) -> bool:
+    """a and b sit in different arms (body / orelse) of a common `if`."""
+    anc_a = [a] + list(ancestors(a))
+    anc_b = [b] + list(ancestors(b))
+    for x in anc_a:
+        if isinstance(x, ast.If) and any(x is y for y in anc_b):
+            def arm(path):
+                for i, n in enumerate(path):
+                    if n is x:
+                        child = path[i - 1] if i > 0 else None
+                        if any(child is s for s in x.body):
+                            return "body"
+                        if any(child is s for s in x.orelse):
+                            return "orelse"
+                return None
+            ra, rb = arm(anc_a), arm(anc_b)
+            if ra and rb and ra != rb:
+                return True
+    return False
 
 
 def _same_stmt(a: ast.AST, b: Optional[ast.AST]) -> bool:
